@@ -259,6 +259,150 @@ Proof.
   - destruct Hin as [H|H]; [inversion H; subst; now rewrite String.eqb_refl in E | now apply IH].
 Qed.
 
+Lemma collect_kids_inv nn l : forall m v p, In (v, p) (collect_kids nn m l) ->
+  exists n k q, p = (m + n) :: q /\ nth_error l n = Some k /\ In (v, q) (collect nn k).
+Proof.
+  induction l as [|y r IH]; intros m v p H; simpl in H; [contradiction|].
+  apply in_app_or in H as [H|H].
+  - apply in_map_iff in H as ([v' q] & E & Hq). simpl in E. inversion E; subst.
+    exists 0, y, q. rewrite Nat.add_0_r. repeat split; assumption.
+  - destruct (IH _ _ _ H) as (n & k & q & -> & Hn & Hq). exists (S n), k, q.
+    replace (m + S n) with (S m + n) by lia. repeat split; assumption.
+Qed.
+
+Lemma nodup_unique {B} (l : list (string * B)) i p q :
+  has_dup (map fst l) = false -> In (i, p) l -> In (i, q) l -> p = q.
+Proof.
+  intros Hd Hp Hq. pose proof (assoc_nodup l i p Hd Hp) as E1. pose proof (assoc_nodup l i q Hd Hq) as E2. congruence.
+Qed.
+
+Lemma assoc_last_In {B} (l : list (string * B)) i w : assoc_last i l = Some w -> In (i, w) l.
+Proof.
+  induction l as [|[k v] r IH]; simpl; [discriminate|].
+  destruct (assoc_last i r) as [w'|] eqn:E.
+  - intro H. inversion H; subst. right. now apply IH.
+  - destruct (String.eqb i k) eqn:Ek; [|discriminate]. apply String.eqb_eq in Ek. intro H. inversion H; subst. now left.
+Qed.
+
+(* when every registration of i names the same element, first-wins and last-wins agree *)
+Lemma lookup_all_same {B} (l : list (string * B)) i p :
+  In (i, p) l -> (forall q, In (i, q) l -> q = p) -> assoc i l = Some p /\ assoc_last i l = Some p.
+Proof.
+  induction l as [|[k v] r IH]; simpl; intros Hin Hall; [contradiction|].
+  assert (Hr : forall q, In (i, q) r -> q = p) by (intros q Hq; apply Hall; now right).
+  split.
+  - destruct (String.eqb i k) eqn:E.
+    + apply String.eqb_eq in E. subst k. f_equal. apply Hall. now left.
+    + destruct Hin as [Hin|Hin]; [inversion Hin; subst; now rewrite String.eqb_refl in E | now apply IH].
+  - destruct (assoc_last i r) as [w|] eqn:E.
+    + f_equal. apply Hr. now apply assoc_last_In.
+    + destruct Hin as [Hin|Hin].
+      * inversion Hin; subst. now rewrite String.eqb_refl.
+      * destruct (IH Hin Hr) as [_ IH2]. congruence.
+Qed.
+
+(* ================================================================== the elements a parser of the text sees *)
+Fixpoint visible_kids (i : nat) (l : list tree) : list (path * tree) :=
+  match l with
+  | [] => []
+  | k :: r => map (fun pe => (i :: fst pe, snd pe)) (visible k) ++ visible_kids (S i) r
+  end.
+
+Lemma visible_unfold t : visible t = ([], t) :: (if opaque t then [] else visible_kids 0 (kids t)).
+Proof.
+  destruct t as [tg ats tx ks]. reflexivity.
+Qed.
+
+Lemma visible_kids_In l : forall n m k q e,
+  nth_error l n = Some k -> In (q, e) (visible k) -> In ((m + n) :: q, e) (visible_kids m l).
+Proof.
+  induction l as [|y r IH]; intros [|n] m k q e Hn Hin; simpl in *; try discriminate.
+  - inversion Hn; subst. apply in_or_app. left. apply in_map_iff. exists (q, e). simpl. now rewrite Nat.add_0_r.
+  - apply in_or_app. right. replace (m + S n) with (S m + n) by lia. eapply IH; eauto.
+Qed.
+
+Lemma visible_kids_inv l : forall m p e, In (p, e) (visible_kids m l) ->
+  exists n k q, p = (m + n) :: q /\ nth_error l n = Some k /\ In (q, e) (visible k).
+Proof.
+  induction l as [|y r IH]; intros m p e H; simpl in H; [contradiction|].
+  apply in_app_or in H as [H|H].
+  - apply in_map_iff in H as ([q e'] & E & Hq). simpl in E. inversion E; subst.
+    exists 0, y, q. rewrite Nat.add_0_r. repeat split; assumption.
+  - destruct (IH _ _ _ H) as (n & k & q & -> & Hn & Hq). exists (S n), k, q.
+    replace (m + S n) with (S m + n) by lia. repeat split; assumption.
+Qed.
+
+Lemma visible_sub : forall t p e, In (p, e) (visible t) -> sub t p = Some e /\ clear_path t p.
+Proof.
+  induction t as [tg ats tx ks IH] using tree_ind'. intros p e H.
+  rewrite visible_unfold in H. destruct H as [E|H].
+  - inversion E; subst. split; [reflexivity | exact I].
+  - destruct (opaque (Node tg ats tx ks)) eqn:Ho; [contradiction|].
+    apply visible_kids_inv in H as (n & k & q & -> & Hn & Hq). cbn [kids] in Hn.
+    rewrite Forall_forall in IH. destruct (IH k (nth_error_In _ _ Hn) q e Hq) as [Hs Hc].
+    cbn [Nat.add sub clear_path kids]. rewrite Hn. repeat split; assumption.
+Qed.
+
+Lemma visible_complete : forall p doc e, sub doc p = Some e -> clear_path doc p -> In (p, e) (visible doc).
+Proof.
+  induction p as [|n r IH]; intros doc e Hs Hc; simpl in Hs.
+  - inversion Hs; subst. rewrite visible_unfold. now left.
+  - destruct Hc as [Hop Hc]. destruct (nth_error (kids doc) n) as [k|] eqn:Hn; [|discriminate].
+    rewrite visible_unfold, Hop. right. change (n :: r) with ((0 + n) :: r). eapply visible_kids_In; eauto.
+Qed.
+
+(* every registration of the engine belongs to a visible element of that name *)
+Lemma collect_visible nn : forall t v p, In (v, p) (collect nn t) ->
+  exists e, In (p, e) (visible t) /\ id_match nn (tag e) = true /\ attr "ID" e = Some v.
+Proof.
+  induction t as [tg ats tx ks IH] using tree_ind'. intros v p H.
+  rewrite collect_unfold in H. apply in_app_or in H as [H|H].
+  - destruct (id_match nn (tag (Node tg ats tx ks))) eqn:Hm; [|contradiction].
+    destruct (attr "ID" (Node tg ats tx ks)) as [v'|] eqn:Hid; [|contradiction].
+    destruct H as [E|[]]. inversion E; subst. exists (Node tg ats tx ks).
+    split; [rewrite visible_unfold; now left | split; assumption].
+  - destruct (opaque (Node tg ats tx ks)) eqn:Ho; [contradiction|].
+    apply collect_kids_inv in H as (n & k & q & -> & Hn & Hq). cbn [kids] in Hn.
+    rewrite Forall_forall in IH. destruct (IH k (nth_error_In _ _ Hn) v q Hq) as (e & He & Hme & Hide).
+    exists e. split; [|split; assumption]. rewrite visible_unfold, Ho. right. cbn [kids]. eapply visible_kids_In; eauto.
+Qed.
+
+Lemma opt_eqb_str a b : opt_eqb String.eqb a b = true <-> a = b.
+Proof.
+  destruct a as [x|], b as [y|]; simpl; try rewrite String.eqb_eq; split; intro H; try congruence; try discriminate.
+Qed.
+
+Lemma nodes_of_In m oid doc q :
+  In q (nodes_of m oid doc) <-> exists e, In (q, e) (visible doc) /\ m (tag e) = true /\ attr "ID" e = oid.
+Proof.
+  unfold nodes_of. rewrite in_map_iff. split.
+  - intros ([q' e] & E & H). simpl in E. subst. apply filter_In in H as [H1 H2]. simpl in H2.
+    apply andb_true_iff in H2 as [Ha Hb]. apply opt_eqb_str in Hb. eauto.
+  - intros (e & H & Ht & Hi). exists (q, e). split; [reflexivity|]. apply filter_In. split; [assumption|].
+    simpl. rewrite Ht. simpl. now apply opt_eqb_str.
+Qed.
+
+(* what a passed _is_the_only_signature_child says: some element of that name and ID, found in the text,
+   passed the one-signature test; with the uniqueness test on it is the only one *)
+Lemma node_match_id K nn tg : node_match K nn tg = true -> id_match nn tg = true.
+Proof. unfold node_match, id_match. destruct (k_lax K); [tauto | intros ->; reflexivity]. Qed.
+Lemma node_match_q K nn : node_match K nn (nn_q nn) = true.
+Proof. unfold node_match, id_match. rewrite String.eqb_refl. now destruct (k_lax K). Qed.
+
+Lemma one_sig_doc_pick K nn doc item : one_sig_doc K nn doc item = true ->
+  exists q node, In q (nodes_of (node_match K nn) (attr "ID" item) doc) /\ sub doc q = Some node /\ one_sig_k K node = true
+                 /\ (k_uniq K = true -> nodes_of (node_match K nn) (attr "ID" item) doc = [q]).
+Proof.
+  unfold one_sig_doc. set (ps := nodes_of (node_match K nn) (attr "ID" item) doc).
+  destruct (k_uniq K).
+  - destruct ps as [|q [|? ?]]; try discriminate.
+    destruct (sub doc q) as [node|] eqn:Es; [|discriminate]. intro H.
+    exists q, node. repeat split; try assumption. now left.
+  - destruct (last_opt ps) as [q|] eqn:El; [|discriminate].
+    destruct (sub doc q) as [node|] eqn:Es; [|discriminate]. intro H.
+    exists q, node. repeat split; try assumption; [now apply last_opt_In | discriminate].
+Qed.
+
 (* ================================================================== first signature, removal *)
 Lemma sub_one t j : sub t [j] = nth_error (kids t) j.
 Proof. simpl. now destruct (nth_error (kids t) j). Qed.
@@ -404,19 +548,73 @@ Proof.
   destruct (Ascii.ascii_dec "#"%char "#"%char) as [_|N]; [|congruence]. destruct i; reflexivity.
 Qed.
 
+(* the first ds:Signature at or below an element, when it is a child, is the first ds:Signature child *)
+Fixpoint first_sig_kids (i : nat) (l : list tree) : option path :=
+  match l with
+  | [] => None
+  | k :: r => match first_sig k with Some p => Some (i :: p) | None => first_sig_kids (S i) r end
+  end.
+
+Lemma first_sig_unfold t :
+  first_sig t = if String.eqb (tag t) SIGNATURE then Some [] else if opaque t then None else first_sig_kids 0 (kids t).
+Proof.
+  destruct t as [tg ats tx ks]. reflexivity.
+Qed.
+
+Lemma first_sig_kids_cons l : forall m p, first_sig_kids m l = Some p -> p <> [].
+Proof.
+  induction l as [|k r IH]; intros m p H; cbn [first_sig_kids] in H; [discriminate|].
+  destruct (first_sig k); [inversion H; discriminate | eapply IH; eauto].
+Qed.
+
+Lemma first_sig_kids_index l : forall m j, first_sig_kids m l = Some [j] -> sig_index m l = Some j.
+Proof.
+  induction l as [|k r IH]; intros m j H; cbn [first_sig_kids] in H; [discriminate|].
+  cbn [sig_index]. destruct (first_sig k) as [pk|] eqn:Ek.
+  - inversion H; subst. rewrite first_sig_unfold in Ek.
+    destruct (String.eqb (tag k) SIGNATURE); [reflexivity|].
+    destruct (opaque k); [discriminate|]. exfalso. eapply first_sig_kids_cons; eauto.
+  - rewrite first_sig_unfold in Ek. destruct (String.eqb (tag k) SIGNATURE); [discriminate|]. now apply IH.
+Qed.
+
+Lemma first_sig_is_child item j : first_sig item = Some [j] -> first_sig_child item = Some [j].
+Proof.
+  rewrite first_sig_unfold. destruct (String.eqb (tag item) SIGNATURE); [discriminate|].
+  destruct (opaque item); [discriminate|]. intro H. unfold first_sig_child. now rewrite (first_sig_kids_index _ _ _ H).
+Qed.
+
+Lemma sel_sig_one s item j : first_sig item = Some [j] -> sel_sig s item = Some [j].
+Proof. intro H. destruct s; [exact H | now apply first_sig_is_child]. Qed.
+
+(* the switches that every theorem needs on; k_onesig / k_uniq / k_issuer are handled by guards *)
 Definition sound_knobs (K : knobs) : Prop :=
-  k_uri K = true /\ k_dup K = true /\ k_nodeid K = true /\ k_iter K = true /\ k_exact K = true.
+  k_uri K = true /\ k_nodeid K = true /\ k_iter K = true /\ k_exact K = true.
+
+(* why the element that is signature-checked is the element the engine starts from:
+   - the code makes the whole test (one signature, unique in the text) - enough for EVERY engine; or
+   - the code makes the one-signature test on whichever element of that ID it finds, and the engine is strict
+     about duplicate IDs (then the uniqueness test of the code is redundant); or
+   - (before e81db11e) the document satisfies the guard and the engine is strict *)
+Definition item_guard (E : engine) (K : knobs) (item : tree) : Prop :=
+  (k_onesig K = true /\ (k_uniq K = true \/ e_ids E = IdStrict))
+  \/ (one_sig item = true /\ e_ids E = IdStrict).
+
+(* lenient engines only: no un-namespaced element called like the node carries an ID (the engine's --id-attr
+   registration matches such elements, the uniqueness test of the code does not see them: finding C02-F3) *)
+Definition no_bare_for (nn : nodename) (doc : tree) : Prop :=
+  forall q e, sub doc q = Some e -> tag e = nn_l nn -> String.eqb (nn_l nn) (nn_q nn) = false -> attr "ID" e = None.
 
 Section Key.
   Variable dig_ok : string -> string -> tree -> bool.
   Variable sig_ok : nat -> string -> tree -> bool.
 
-  Lemma check_signature_covered K c doc item nn fb schema p ds k :
+  Lemma check_signature_covered E K c doc item nn fb schema p ds k :
     sound_knobs K ->
-    (k_onesig K = true \/ one_sig item = true) ->
-    sub doc p = Some item -> clear_path doc p -> id_match nn (tag item) = true ->
+    item_guard E K item ->
+    (lenient E = true -> k_lax K = true \/ no_bare_for nn doc) ->
+    sub doc p = Some item -> clear_path doc p -> tag item = nn_q nn ->
     (schema = true -> attr "ID" item <> None) ->
-    check_signature dig_ok sig_ok K c doc item nn fb schema = Some (ds, k) ->
+    check_signature dig_ok sig_ok E K c doc item nn fb schema = Some (ds, k) ->
     exists j sg si sv alg dv,
       nth_error (kids item) j = Some sg /\ tag sg = SIGNATURE /\ ds = [(p, p ++ [j])]
       /\ In k (md_certs c (let i := issuer_text item in if is_empty i then fb else i))
@@ -424,18 +622,13 @@ Section Key.
       /\ dig_ok alg dv (remove_at item [j]) = true
       /\ sig_ok k sv si = true.
   Proof.
-    intros (Ku & Kd & Kn & Ki & Ke) Hone Hsub Hclear Hm Hschema H.
+    intros (Ku & Kn & Ki & Ke) Hone Hbare Hsub Hclear Htag Hschema H.
+    assert (Hm : id_match nn (tag item) = true) by (unfold id_match; now rewrite Htag, String.eqb_refl).
     unfold check_signature in H.
     destruct schema; [|discriminate]. simpl in H.
     destruct (validators K item) eqn:Hv; [|discriminate]. simpl in H.
-    assert (Hone' : one_sig item = true).
-    { destruct Hone as [Ho|Ho]; [|assumption]. unfold one_sig_k in H. rewrite Ho, Ki in H. simpl in H.
-      destruct (one_sig item); [reflexivity | discriminate]. }
-    assert (H' : first_ok (xmlsec_verify dig_ok sig_ok K doc nn
-                  match attr "ID" item with Some i => if is_empty i then None else Some i | None => None end)
-                  (md_certs c (let i := issuer_text item in if is_empty i then fb else i)) = Some (ds, k)).
-    { destruct (k_onesig K && negb (one_sig_k K item)); [discriminate | exact H]. }
-    clear H. apply first_ok_In in H' as [Hk Hx].
+    destruct (k_onesig K && negb (one_sig_doc K nn doc item)) eqn:Hos; [discriminate|].
+    apply first_ok_In in H as [Hk Hx].
     destruct (attr "ID" item) as [i|] eqn:Hid; [|exfalso; now apply Hschema].
     (* validators *)
     unfold validators in Hv.
@@ -451,17 +644,70 @@ Section Key.
     assert (Hi : is_empty i = false).
     { destruct i; [simpl in Vb; discriminate | reflexivity]. }
     rewrite Hi in Hx.
+    (* the engine: registry, start node *)
+    unfold xmlsec_verify in Hx. rewrite Kn in Hx.
+    destruct (dup_error (e_ids E) (collect nn doc)) eqn:Hdup; [discriminate|].
+    assert (Hin : In (i, p) (collect nn doc)) by (eapply collect_sub; eauto).
+    assert (Hvis : In (p, item) (visible doc)) by (now apply visible_complete).
+    assert (F : one_sig item = true /\ ids_of (e_ids E) (collect nn doc) i = Some p).
+    { destruct (e_ids E) eqn:Em; cbn [dup_error] in Hdup; cbn [ids_of].
+      - (* strict: no duplicate registration at all *)
+        split; [|now apply assoc_nodup].
+        destruct Hone as [[Ko _]|[Ho _]]; [|exact Ho].
+        rewrite Ko in Hos. cbn [andb] in Hos. apply negb_false_iff in Hos.
+        destruct (one_sig_doc_pick _ _ _ _ Hos) as (q & node & Hq & Hsq & Hnode & _).
+        apply nodes_of_In in Hq as (e & Hve & Hte & Hie).
+        destruct (visible_sub _ _ _ Hve) as [Hse Hce].
+        assert (In (i, q) (collect nn doc)).
+        { eapply collect_sub; eauto; [eapply node_match_id; eauto | congruence]. }
+        assert (q = p) by (eapply nodup_unique; eauto). subst q.
+        rewrite Hsub in Hsq. inversion Hsq; subst node. unfold one_sig_k in Hnode. now rewrite Ki in Hnode.
+      - (* first registration wins *)
+        destruct Hone as [[Ko [Hu|Hs]]|[_ Hs]]; try congruence.
+        rewrite Ko in Hos. cbn [andb] in Hos. apply negb_false_iff in Hos.
+        destruct (one_sig_doc_pick _ _ _ _ Hos) as (q & node & Hq & Hsq & Hnode & Hall). specialize (Hall Hu).
+        assert (Hp : In p (nodes_of (node_match K nn) (attr "ID" item) doc))
+          by (apply nodes_of_In; exists item; rewrite Hid, Htag; auto using node_match_q).
+        rewrite Hall in Hp, Hq. destruct Hp as [<-|[]].
+        rewrite Hsub in Hsq. inversion Hsq; subst node. unfold one_sig_k in Hnode. rewrite Ki in Hnode.
+        split; [assumption|]. apply lookup_all_same; [assumption|].
+        intros q' Hq'. destruct (collect_visible _ _ _ _ Hq') as (e & Hve & Hme & Hie).
+        destruct (node_match K nn (tag e)) eqn:Eq.
+        + assert (In q' (nodes_of (node_match K nn) (attr "ID" item) doc)) by (apply nodes_of_In; exists e; rewrite Hid; auto).
+          rewrite Hall in H. now destruct H as [<-|[]].
+        + exfalso. unfold node_match in Eq. destruct (k_lax K) eqn:Kl; [congruence|].
+          unfold id_match in Hme. rewrite Eq in Hme. cbn [orb] in Hme. apply String.eqb_eq in Hme.
+          assert (Hl : lenient E = true) by (unfold lenient; now rewrite Em).
+          destruct (Hbare Hl) as [Hb|Hb]; [discriminate|].
+          destruct (visible_sub _ _ _ Hve) as [Hse _].
+          rewrite (Hb q' e Hse Hme) in Hie; [discriminate|]. rewrite <- Hme. exact Eq.
+      - (* last registration wins *)
+        destruct Hone as [[Ko [Hu|Hs]]|[_ Hs]]; try congruence.
+        rewrite Ko in Hos. cbn [andb] in Hos. apply negb_false_iff in Hos.
+        destruct (one_sig_doc_pick _ _ _ _ Hos) as (q & node & Hq & Hsq & Hnode & Hall). specialize (Hall Hu).
+        assert (Hp : In p (nodes_of (node_match K nn) (attr "ID" item) doc))
+          by (apply nodes_of_In; exists item; rewrite Hid, Htag; auto using node_match_q).
+        rewrite Hall in Hp, Hq. destruct Hp as [<-|[]].
+        rewrite Hsub in Hsq. inversion Hsq; subst node. unfold one_sig_k in Hnode. rewrite Ki in Hnode.
+        split; [assumption|]. apply lookup_all_same; [assumption|].
+        intros q' Hq'. destruct (collect_visible _ _ _ _ Hq') as (e & Hve & Hme & Hie).
+        destruct (node_match K nn (tag e)) eqn:Eq.
+        + assert (In q' (nodes_of (node_match K nn) (attr "ID" item) doc)) by (apply nodes_of_In; exists e; rewrite Hid; auto).
+          rewrite Hall in H. now destruct H as [<-|[]].
+        + exfalso. unfold node_match in Eq. destruct (k_lax K) eqn:Kl; [congruence|].
+          unfold id_match in Hme. rewrite Eq in Hme. cbn [orb] in Hme. apply String.eqb_eq in Hme.
+          assert (Hl : lenient E = true) by (unfold lenient; now rewrite Em).
+          destruct (Hbare Hl) as [Hb|Hb]; [discriminate|].
+          destruct (visible_sub _ _ _ Hve) as [Hse _].
+          rewrite (Hb q' e Hse Hme) in Hie; [discriminate|]. rewrite <- Hme. exact Eq. }
+    destruct F as [Hone' Hreg].
     (* one signature *)
     destruct (one_sig_shape _ Hone') as (j & s & Em & Ef & En & Ets).
     assert (sg = s).
-    { apply single_In in Esg. rewrite Em in Esg. destruct Esg as [E|[]]. now subst. }
+    { apply single_In in Esg. rewrite Em in Esg. destruct Esg as [E0|[]]. now subst. }
     subst s.
     (* xmlsec *)
-    unfold xmlsec_verify in Hx. rewrite Kd, Kn in Hx. simpl in Hx.
-    destruct (has_dup (map fst (collect nn doc))) eqn:Hdup; [discriminate|].
-    assert (Hreg : assoc i (collect nn doc) = Some p).
-    { apply assoc_nodup; [assumption|]. eapply collect_sub; eauto. }
-    rewrite Hreg, Hsub, Ef in Hx.
+    cbv zeta in Hx. rewrite Hreg, Hsub in Hx. rewrite (sel_sig_one (e_sel E) item j Ef) in Hx.
     rewrite sub_one, En in Hx.
     destruct (strict_sig sg) eqn:Hst; [|discriminate]. simpl in Hx.
     destruct (strict_sig_shape _ Hst) as (si' & sv & Fsi & Ssi & Fsv & Hssi).
@@ -811,21 +1057,22 @@ Section Accept.
   Variable sig_ok : nat -> string -> tree -> bool.
 
   (* the signature-carrying elements are either guarded by the repaired code or satisfy the guard *)
-  Definition guarded (K : knobs) (t : tree) : Prop := signed t -> k_onesig K = true \/ one_sig t = true.
+  Definition guarded (E : engine) (K : knobs) (t : tree) : Prop := signed t -> item_guard E K t.
 
   (* what the cryptography established for a covered element: the verifying certificate accepted
      a SignedInfo whose digest value is the digest of exactly this element *)
   Definition crypto_ok (e : tree) (k : nat) : Prop :=
     exists si sv alg dv, si_digest si = Some (alg, dv) /\ dig_ok alg dv e = true /\ sig_ok k sv si = true.
 
-  Lemma check_assertions_covered K c (which : bool) root dc doc ddoc :
+  Lemma check_assertions_covered E K c (which : bool) root dc doc ddoc :
     sound_knobs K -> (if which then ddoc else Some doc) = Some dc ->
+    (lenient E = true -> k_lax K = true \/ no_bare_for A_NAME dc) ->
     forall as_ sch all ds,
-      (forall a, In a as_ -> guarded K a) ->
+      (forall a, In a as_ -> guarded E K a) ->
       (forall a, In a as_ -> exists p, sub dc p = Some a /\ clear_path dc p) ->
       (forall a, In a as_ -> tag a = ASSERTION) ->
       bits_sane as_ sch ->
-      check_assertions dig_ok sig_ok K c which root dc "" as_ sch = Some (all, ds) ->
+      check_assertions dig_ok sig_ok E K c which root dc "" as_ sch = Some (all, ds) ->
       (forall a, In a as_ -> signed a ->
          exists j s k, nth_error (kids a) j = Some s /\ tag s = SIGNATURE
                        /\ In (remove_at a [j], k) (cov_of doc ddoc ds)
@@ -835,7 +1082,7 @@ Section Accept.
       /\ (forall e k, In (e, k) (cov_of doc ddoc ds) -> crypto_ok e k)
       /\ (forall a, In a as_ -> issuer_check K root a = true).
   Proof.
-    intros HK Hdc. induction as_ as [|a r IH]; intros sch all ds Hg Hp Ht Hb H.
+    intros HK Hdc Hbare. induction as_ as [|a r IH]; intros sch all ds Hg Hp Ht Hb H.
     - cbn in H. inversion H; subst. split; [|split; [|split]]; intros; contradiction.
     - cbn [check_assertions] in H.
       destruct (issuer_check K root a) eqn:Eic; [|discriminate]. cbn [negb] in H.
@@ -843,17 +1090,17 @@ Section Accept.
       assert (IH' := fun all ds => IH (tl sch) all ds (fun x Hx => Hg x (or_intror Hx)) (fun x Hx => Hp x (or_intror Hx))
                                       (fun x Hx => Ht x (or_intror Hx)) Hb').
       destruct (single SIGNATURE a) as [sg|] eqn:Esg.
-      + destruct (check_signature dig_ok sig_ok K c dc a A_NAME "" match sch with b :: _ => b | [] => false end)
+      + destruct (check_signature dig_ok sig_ok E K c dc a A_NAME "" match sch with b :: _ => b | [] => false end)
           as [[res k]|] eqn:Ec; [|discriminate].
-        destruct (check_assertions dig_ok sig_ok K c which root dc "" r (tl sch)) as [[all' ds']|] eqn:Er; [|discriminate].
+        destruct (check_assertions dig_ok sig_ok E K c which root dc "" r (tl sch)) as [[all' ds']|] eqn:Er; [|discriminate].
         inversion H; subst all ds. clear H.
         destruct (IH' _ _ eq_refl) as (I1 & I2 & I3 & I4).
         destruct (Hp a (or_introl eq_refl)) as (p & Hsub & Hclear).
         assert (Hsa : signed a) by (unfold signed; congruence).
         assert (Hid : match sch with b :: _ => b | [] => false end = true -> attr "ID" a <> None).
         { destruct sch as [|b s]; [discriminate | exact (proj1 Hb)]. }
-        assert (Hm : id_match A_NAME (tag a) = true) by (rewrite (Ht a (or_introl eq_refl)); reflexivity).
-        destruct (check_signature_covered dig_ok sig_ok K c dc a A_NAME "" _ p res k HK (Hg a (or_introl eq_refl) Hsa) Hsub Hclear Hm Hid Ec)
+        assert (Hm : tag a = nn_q A_NAME) by (exact (Ht a (or_introl eq_refl))).
+        destruct (check_signature_covered dig_ok sig_ok E K c dc a A_NAME "" _ p res k HK (Hg a (or_introl eq_refl) Hsa) Hbare Hsub Hclear Hm Hid Ec)
           as (j & s & si & sv & alg & dv & Hn & Hs & Hres & Hk & Hsd & Hd & Hsg).
         split.
         * intros x [<-|Hx] Hsx.
@@ -869,9 +1116,9 @@ Section Accept.
           intros e k0 Hin. rewrite cov_of_app in Hin. apply in_app_or in Hin as [Hin|Hin]; [|now apply I3].
           subst res. change (mkdigs which ([(p, p ++ [j])], k)) with [(which, p, p ++ [j], k)] in Hin.
           rewrite (cov_of_single doc ddoc which dc p j k a Hdc Hsub) in Hin.
-          destruct Hin as [E|[]]. inversion E; subst. exists si, sv, alg, dv. tauto.
+          destruct Hin as [E0|[]]. inversion E0; subst. exists si, sv, alg, dv. tauto.
       + destruct (want_assert c) eqn:Ew; [discriminate|].
-        destruct (check_assertions dig_ok sig_ok K c which root dc "" r (tl sch)) as [[all' ds']|] eqn:Er; [|discriminate].
+        destruct (check_assertions dig_ok sig_ok E K c which root dc "" r (tl sch)) as [[all' ds']|] eqn:Er; [|discriminate].
         inversion H; subst all ds. clear H.
         destruct (IH' _ _ eq_refl) as (I1 & I2 & I3 & I4).
         split; [|split; [|split]].
@@ -916,6 +1163,22 @@ Definition reported_assertions (doc : tree) (ddoc : option tree) : list tree :=
 Definition issuer_guard (doc : tree) (ddoc : option tree) : Prop :=
   signed doc \/ exists a, In a (reported_assertions doc ddoc) /\ issuer_text a = issuer_text doc.
 
+(* lenient engines only (finding C02-F3): no un-namespaced element called Assertion / Response carries an ID, in
+   the text as received and in the decrypted text *)
+Definition no_bare (doc : tree) : Prop :=
+  forall q e, sub doc q = Some e -> (tag e = "Assertion" \/ tag e = "Response") -> attr "ID" e = None.
+Definition engine_guard (E : engine) (doc : tree) (ddoc : option tree) : Prop :=
+  lenient E = true -> no_bare doc /\ (forall dd, ddoc = Some dd -> no_bare dd).
+
+Lemma no_bare_A doc : no_bare doc -> no_bare_for A_NAME doc.
+Proof. intros H q e Hs Ht _. apply (H q e Hs). left. exact Ht. Qed.
+Lemma no_bare_R doc : no_bare doc -> no_bare_for R_NAME doc.
+Proof. intros H q e Hs Ht _. apply (H q e Hs). right. exact Ht. Qed.
+
+(* which engines / documents a set of switches is sound for (see item_guard) *)
+Definition defence (E : engine) (K : knobs) (doc : tree) (ddoc : option tree) : Prop :=
+  (k_onesig K = true /\ (k_uniq K = true \/ e_ids E = IdStrict)) \/ (sig_guard doc ddoc /\ e_ids E = IdStrict).
+
 Lemma sub_kid doc a : opaque doc = false -> In a (kids doc) -> exists p, sub doc p = Some a /\ clear_path doc p.
 Proof.
   intros Ho H. apply In_nth_error in H as (n & Hn). exists [n]. rewrite sub_one. split; [assumption|].
@@ -951,18 +1214,19 @@ Section Main.
   Variable dig_ok : string -> string -> tree -> bool.
   Variable sig_ok : nat -> string -> tree -> bool.
 
-  Definition response_check (K : knobs) (c : cfg) (o : oracle) (doc : tree) : option (bool * list dig) :=
+  Definition response_check (E : engine) (K : knobs) (c : cfg) (o : oracle) (doc : tree) : option (bool * list dig) :=
     match single SIGNATURE doc with
-    | Some _ => match check_signature dig_ok sig_ok K c doc doc R_NAME "" (schema_root o) with
+    | Some _ => match check_signature dig_ok sig_ok E K c doc doc R_NAME "" (schema_root o) with
                 | Some res => Some (true, mkdigs false res)
                 | None => None
                 end
     | None => if want_resp c then None else Some (false, [])
     end.
 
-  Lemma response_step K c o doc ddoc resp_signed d0 :
-    sound_knobs K -> tag doc = RESPONSE -> guarded K doc -> (schema_root o = true -> attr "ID" doc <> None) ->
-    response_check K c o doc = Some (resp_signed, d0) ->
+  Lemma response_step E K c o doc ddoc resp_signed d0 :
+    sound_knobs K -> tag doc = RESPONSE -> guarded E K doc -> (lenient E = true -> k_lax K = true \/ no_bare_for R_NAME doc) ->
+    (schema_root o = true -> attr "ID" doc <> None) ->
+    response_check E K c o doc = Some (resp_signed, d0) ->
     (resp_signed = true ->
        exists j s k, nth_error (kids doc) j = Some s /\ tag s = SIGNATURE
                      /\ cov_of doc ddoc d0 = [(remove_at doc [j], k)]
@@ -970,13 +1234,13 @@ Section Main.
                      /\ crypto_ok dig_ok sig_ok (remove_at doc [j]) k)
     /\ (resp_signed = false -> d0 = [] /\ want_resp c = false /\ ~ signed doc).
   Proof.
-    intros HK Etag Gdoc Os1 ER. unfold response_check in ER.
+    intros HK Etag Gdoc Hbare Os1 ER. unfold response_check in ER.
     destruct (single SIGNATURE doc) as [sg|] eqn:Esg.
-    - destruct (check_signature dig_ok sig_ok K c doc doc R_NAME "" (schema_root o)) as [[res k]|] eqn:Ec; [|discriminate].
+    - destruct (check_signature dig_ok sig_ok E K c doc doc R_NAME "" (schema_root o)) as [[res k]|] eqn:Ec; [|discriminate].
       inversion ER; subst resp_signed d0. clear ER. split; [intros _|discriminate].
       assert (Hsd : signed doc) by (unfold signed; congruence).
-      assert (Hm : id_match R_NAME (tag doc) = true) by (rewrite Etag; reflexivity).
-      destruct (check_signature_covered dig_ok sig_ok K c doc doc R_NAME "" _ [] res k HK (Gdoc Hsd) eq_refl I Hm Os1 Ec)
+      assert (Hm : tag doc = nn_q R_NAME) by (exact Etag).
+      destruct (check_signature_covered dig_ok sig_ok E K c doc doc R_NAME "" _ [] res k HK (Gdoc Hsd) Hbare eq_refl I Hm Os1 Ec)
         as (j & s & si & sv & alg & dv & Hn & Hs & Hres & Hk & Hsdg & Hd & Hsg).
       exists j, s, k. repeat split; try assumption.
       + subst res. change (mkdigs false ([(@nil nat, @nil nat ++ [j])], k)) with [(false, @nil nat, @nil nat ++ [j], k)].
@@ -993,36 +1257,44 @@ Section Main.
     rewrite Hby. apply subtrees_self.
   Qed.
 
-  Theorem accept_covered K c o doc ddoc rep ds :
+  Theorem accept_covered Eg K c o doc ddoc rep ds :
     sound_knobs K -> sig_required c ->
-    (k_onesig K = true \/ sig_guard doc ddoc) ->
+    defence Eg K doc ddoc ->
     (k_issuer K = true \/ issuer_guard doc ddoc) ->
+    (k_lax K = true \/ engine_guard Eg doc ddoc) ->
     oracle_sane o doc ddoc -> dec_sound doc ddoc ->
-    accept dig_ok sig_ok K c o doc ddoc = Some (rep, ds) ->
+    accept dig_ok sig_ok Eg K c o doc ddoc = Some (rep, ds) ->
     spec c (cov_of doc ddoc ds) rep
     /\ (forall e k, In (e, k) (cov_of doc ddoc ds) -> crypto_ok dig_ok sig_ok e k).
   Proof.
-    intros HK Hreq Hguard Hig (Os1 & Os2 & Os3) Hdec H.
+    intros HK Hreq Hguard Hig Heng (Os1 & Os2 & Os3) Hdec H.
     unfold accept in H.
     destruct (String.eqb (tag doc) RESPONSE) eqn:Etag; [|discriminate]. apply String.eqb_eq in Etag. cbn [negb] in H.
     destruct (content_ok o); [|discriminate]. cbn [negb] in H.
-    assert (Gdoc : guarded K doc) by (intro Hs; destruct Hguard as [G|(G & _ & _)]; [now left | right; now apply G]).
-    assert (Gplain : forall a, In a (many ASSERTION doc) -> guarded K a)
-      by (intros a Ha Hs; destruct Hguard as [G|(_ & G & _)]; [now left | right; now apply G]).
-    assert (Genc : forall dd, ddoc = Some dd -> forall a, In a (decrypted dd) -> guarded K a)
-      by (intros dd Hdd a Ha Hs; destruct Hguard as [G|(_ & _ & G)]; [now left | right; eapply G; eauto]).
+    assert (Gdoc : guarded Eg K doc)
+      by (intro Hs; destruct Hguard as [G|((G & _ & _) & Hst)]; [now left | right; split; [now apply G | exact Hst]]).
+    assert (Gplain : forall a, In a (many ASSERTION doc) -> guarded Eg K a)
+      by (intros a Ha Hs; destruct Hguard as [G|((_ & G & _) & Hst)]; [now left | right; split; [now apply G | exact Hst]]).
+    assert (Genc : forall dd, ddoc = Some dd -> forall a, In a (decrypted dd) -> guarded Eg K a)
+      by (intros dd Hdd a Ha Hs; destruct Hguard as [G|((_ & _ & G) & Hst)]; [now left | right; split; [eapply G; eauto | exact Hst]]).
+    assert (BR : lenient Eg = true -> k_lax K = true \/ no_bare_for R_NAME doc)
+      by (intro Hl; destruct Heng as [Hx|Hx]; [now left | right; apply no_bare_R; exact (proj1 (Hx Hl))]).
+    assert (BA : lenient Eg = true -> k_lax K = true \/ no_bare_for A_NAME doc)
+      by (intro Hl; destruct Heng as [Hx|Hx]; [now left | right; apply no_bare_A; exact (proj1 (Hx Hl))]).
+    assert (BD : forall dd, ddoc = Some dd -> lenient Eg = true -> k_lax K = true \/ no_bare_for A_NAME dd)
+      by (intros dd Hdd Hl; destruct Heng as [Hx|Hx]; [now left | right; apply no_bare_A; exact (proj2 (Hx Hl) dd Hdd)]).
     change (match single SIGNATURE doc with
-            | Some _ => match check_signature dig_ok sig_ok K c doc doc R_NAME "" (schema_root o) with
+            | Some _ => match check_signature dig_ok sig_ok Eg K c doc doc R_NAME "" (schema_root o) with
                         | Some res => Some (true, mkdigs false res)
                         | None => None
                         end
             | None => if want_resp c then None else Some (false, [])
-            end) with (response_check K c o doc) in H.
-    destruct (response_check K c o doc) as [[resp_signed d0]|] eqn:ER; [|discriminate].
-    destruct (response_step K c o doc ddoc resp_signed d0 HK Etag Gdoc Os1 ER) as [Hroot Hd0].
+            end) with (response_check Eg K c o doc) in H.
+    destruct (response_check Eg K c o doc) as [[resp_signed d0]|] eqn:ER; [|discriminate].
+    destruct (response_step Eg K c o doc ddoc resp_signed d0 HK Etag Gdoc BR Os1 ER) as [Hroot Hd0].
     assert (Hopq : opaque doc = false) by (eapply not_opaque_tag; [exact Etag | reflexivity]).
-    destruct (check_assertions dig_ok sig_ok K c false doc doc "" (many ASSERTION doc) (schema_as o)) as [[all1 d1]|] eqn:E1; [|discriminate].
-    destruct (check_assertions_covered dig_ok sig_ok K c false doc doc doc ddoc HK eq_refl _ _ _ _
+    destruct (check_assertions dig_ok sig_ok Eg K c false doc doc "" (many ASSERTION doc) (schema_as o)) as [[all1 d1]|] eqn:E1; [|discriminate].
+    destruct (check_assertions_covered dig_ok sig_ok Eg K c false doc doc doc ddoc HK eq_refl BA _ _ _ _
                 Gplain (fun a Ha => sub_kid doc a Hopq (proj1 (proj1 (many_In _ _ _) Ha)))
                 (fun a Ha => proj2 (proj1 (many_In _ _ _) Ha)) Os2 E1) as (P1 & P2 & P3 & P4).
     (* a signed Response covers every assertion below its non-signature children *)
@@ -1059,7 +1331,7 @@ Section Main.
     assert (Hc0 : forall e k, In (e, k) (cov_of doc ddoc d0) -> crypto_ok dig_ok sig_ok e k).
     { intros e k Hin. destruct resp_signed.
       - destruct (Hroot eq_refl) as (j & s & k' & _ & _ & Hcov & _ & Hcr). rewrite Hcov in Hin.
-        destruct Hin as [E|[]]. now inversion E; subst.
+        destruct Hin as [E0|[]]. now inversion E0; subst.
       - destruct (Hd0 eq_refl) as (-> & _). contradiction. }
     (* an assertion verified on its own is covered *)
     assert (Hown : forall (cv : cov) a j s k, nth_error (kids a) j = Some s -> tag s = SIGNATURE -> tag a = ASSERTION ->
@@ -1070,8 +1342,8 @@ Section Main.
     - (* ---------------- the Response carries ciphertext *)
       destruct ddoc as [dd|] eqn:Edd; [|discriminate].
       destruct (Hdec dd eq_refl) as (Dec0 & Dec1 & Dec2).
-      destruct (check_assertions dig_ok sig_ok K c true doc dd "" (decrypted dd) (schema_enc o)) as [[all2 d2]|] eqn:E2; [|discriminate].
-      destruct (check_assertions_covered dig_ok sig_ok K c true doc dd doc (Some dd) HK eq_refl _ _ _ _
+      destruct (check_assertions dig_ok sig_ok Eg K c true doc dd "" (decrypted dd) (schema_enc o)) as [[all2 d2]|] eqn:E2; [|discriminate].
+      destruct (check_assertions_covered dig_ok sig_ok Eg K c true doc dd doc (Some dd) HK eq_refl (BD dd eq_refl) _ _ _ _
                   (Genc dd eq_refl) (fun a Ha => proj2 (decrypted_In dd a Dec0 Ha))
                   (fun a Ha => proj1 (decrypted_In dd a Dec0 Ha)) (Os3 dd eq_refl) E2) as (Q1 & Q2 & Q3 & Q4).
       destruct (want_either c && negb resp_signed && negb (all1 && all2)) eqn:Eeither; [discriminate|].
@@ -1167,16 +1439,16 @@ Section Ideal.
     rewrite (collision_free _ _ _ _ Hd Hd0). now exists si.
   Qed.
 
-  Theorem wrapping_free K c o doc ddoc rep ds :
-    sound_knobs K -> sig_required c -> (k_onesig K = true \/ sig_guard doc ddoc) ->
-    (k_issuer K = true \/ issuer_guard doc ddoc) ->
+  Theorem wrapping_free E K c o doc ddoc rep ds :
+    sound_knobs K -> sig_required c -> defence E K doc ddoc ->
+    (k_issuer K = true \/ issuer_guard doc ddoc) -> (k_lax K = true \/ engine_guard E doc ddoc) ->
     oracle_sane o doc ddoc -> dec_sound doc ddoc ->
-    accept dig_ok sig_ok K c o doc ddoc = Some (rep, ds) ->
+    accept dig_ok sig_ok E K c o doc ddoc = Some (rep, ds) ->
     spec c (cov_of doc ddoc ds) rep
     /\ (forall e k, In (e, k) (cov_of doc ddoc ds) -> exists si, issued k si e).
   Proof.
-    intros HK Hr Hg Hi Ho Hd H.
-    destruct (accept_covered dig_ok sig_ok K c o doc ddoc rep ds HK Hr Hg Hi Ho Hd H) as (S1 & S3).
+    intros HK Hr Hg Hi He Ho Hd H.
+    destruct (accept_covered dig_ok sig_ok E K c o doc ddoc rep ds HK Hr Hg Hi He Ho Hd H) as (S1 & S3).
     split; [assumption|]. intros e k Hin. apply crypto_issued. now apply S3.
   Qed.
 End Ideal.
@@ -1246,7 +1518,27 @@ Module Ex.
   (* C02-F2: only the assertion is signed, the envelope names another issuer *)
   Definition doc_f2 : tree := response OTHER [A_signed].
 
-  Definition run (K : knobs) (c : cfg) (d : tree) := accept dig_ex sig_ex K c all_ok d None.
+  Definition run_e (E : engine) (K : knobs) (c : cfg) (d : tree) := accept dig_ex sig_ex E K c all_ok d None.
+  (* the engine pysaml2 is written for *)
+  Definition run (K : knobs) (c : cfg) (d : tree) := run_e xmlsec1 K c d.
+  Definition eng_first : engine := {| e_ids := IdFirst; e_sel := SelBelow |}.
+  Definition eng_last : engine := {| e_ids := IdLast; e_sel := SelBelow |}.
+  Definition all_engines : list engine :=
+    [xmlsec1; eng_first; eng_last; {| e_ids := IdStrict; e_sel := SelChild |};
+     {| e_ids := IdFirst; e_sel := SelChild |}; {| e_ids := IdLast; e_sel := SelChild |}].
+
+  (* necessity of the uniqueness test of _is_the_only_signature_child under a first-wins engine: the genuine
+     signed assertion is parked FIRST (Extensions), the forged one with the same ID and a copy of the genuine
+     signature is the Response's Assertion child *)
+  Definition doc_dup_first : tree :=
+    response IDP [el "samlp:Extensions" [A_signed]; assertion "A" IDP [sigA] "admin" "admin@evil.example" []].
+  (* C02-F3: an UN-NAMESPACED element called Assertion carries the forged assertion's ID and holds the genuine
+     signed assertion; the forged assertion carries a self-referencing decoy signature.  A lenient engine resolves
+     --node-id E to the un-namespaced element and verifies the genuine signature below it. *)
+  Definition bare_holder : tree := Node "Assertion" [("ID", "E")] "" [A_signed].
+  Definition evil_decoy : tree := assertion "E" IDP [sig "#E" "x" "y"] "admin" "admin@evil.example" [].
+  Definition doc_bare_first : tree := response IDP [el "samlp:Extensions" [bare_holder]; evil_decoy].
+  Definition doc_bare_last : tree := response IDP [evil_decoy; el "samlp:Extensions" [bare_holder]].
   Definition bad (c : cfg) (d : tree) (r : option (reported * list dig)) : bool :=
     match r with Some (rep, ds) => negb (spec_but_issuer_b c (cov_of d None ds) rep) | None => false end.
   Definition names (r : option (reported * list dig)) : option (option (string * option string)) :=
@@ -1315,9 +1607,9 @@ Proof. vm_compute. reflexivity. Qed.
 
 (* necessity of three conjuncts of the defence: with the conjunct switched off (everything else as coded)
    a wrapping document is accepted with the attacker's identity; the code as it is rejects it *)
-Definition no_uri : knobs := {| k_uri := false; k_dup := true; k_nodeid := true; k_onesig := true; k_issuer := true; k_iter := true; k_exact := true |}.
-Definition no_dup : knobs := {| k_uri := true; k_dup := false; k_nodeid := true; k_onesig := true; k_issuer := true; k_iter := true; k_exact := true |}.
-Definition no_nodeid : knobs := {| k_uri := true; k_dup := true; k_nodeid := false; k_onesig := true; k_issuer := true; k_iter := true; k_exact := true |}.
+Definition no_uri : knobs := {| k_uri := false; k_uniq := true; k_nodeid := true; k_onesig := true; k_issuer := true; k_iter := true; k_exact := true; k_lax := true |}.
+Definition no_uniq : knobs := {| k_uri := true; k_uniq := false; k_nodeid := true; k_onesig := true; k_issuer := true; k_iter := true; k_exact := true; k_lax := true |}.
+Definition no_nodeid : knobs := {| k_uri := true; k_uniq := true; k_nodeid := false; k_onesig := true; k_issuer := true; k_iter := true; k_exact := true; k_lax := true |}.
 
 Definition permits_wrapping (K : knobs) (d : tree) : Prop :=
   Ex.names (Ex.run K Ex.cfgA d) = Some (Some ("admin", None))
@@ -1326,19 +1618,35 @@ Definition permits_wrapping (K : knobs) (d : tree) : Prop :=
 
 Lemma necessity_uri : permits_wrapping no_uri Ex.doc_uri.
 Proof. repeat split; vm_compute; reflexivity. Qed.
-Lemma necessity_dup : permits_wrapping no_dup Ex.doc_dup.
+
+(* the same under another engine: with the conjunct off the document is accepted with the attacker's identity BY THAT
+   ENGINE, and the code as it is rejects it under that engine *)
+Definition permits_wrapping_e (E : engine) (K : knobs) (d : tree) : Prop :=
+  Ex.names (Ex.run_e E K Ex.cfgA d) = Some (Some ("admin", None))
+  /\ Ex.bad Ex.cfgA d (Ex.run_e E K Ex.cfgA d) = true
+  /\ Ex.run_e E as_coded Ex.cfgA d = None.
+
+(* the document-wide uniqueness test of _is_the_only_signature_child is what stands between a lenient engine
+   and signature wrapping by ID duplication ... *)
+Lemma necessity_uniq_first : permits_wrapping_e Ex.eng_first no_uniq Ex.doc_dup_first.
 Proof. repeat split; vm_compute; reflexivity. Qed.
+Lemma necessity_uniq_last : permits_wrapping_e Ex.eng_last no_uniq Ex.doc_dup.
+Proof. repeat split; vm_compute; reflexivity. Qed.
+(* ... while xmlsec1 itself (duplicate ID = error) rejects both documents even without that test *)
+Lemma uniq_examples_strict :
+  Ex.run no_uniq Ex.cfgA Ex.doc_dup_first = None /\ Ex.run no_uniq Ex.cfgA Ex.doc_dup = None.
+Proof. split; vm_compute; reflexivity. Qed.
 Lemma necessity_nodeid : permits_wrapping no_nodeid Ex.doc_nodeid.
 Proof. repeat split; vm_compute; reflexivity. Qed.
 
-Definition no_onesig : knobs := {| k_uri := true; k_dup := true; k_nodeid := true; k_onesig := false; k_issuer := true; k_iter := true; k_exact := true |}.
+Definition no_onesig : knobs := {| k_uri := true; k_uniq := true; k_nodeid := true; k_onesig := false; k_issuer := true; k_iter := true; k_exact := true; k_lax := true |}.
 Lemma necessity_onesig : permits_wrapping no_onesig Ex.doc_f1.
 Proof. repeat split; vm_compute; reflexivity. Qed.
 
 (* the one-signature test must look at ALL descendants in document order: a genuine, still signed assertion
    nested (in the Advice) AHEAD of the wrapper's own self-referencing ds:Signature child is what xmlsec1 verifies *)
 Definition no_iter : knobs :=
-  {| k_uri := true; k_dup := true; k_nodeid := true; k_onesig := true; k_issuer := true; k_iter := false; k_exact := true |}.
+  {| k_uri := true; k_uniq := true; k_nodeid := true; k_onesig := true; k_issuer := true; k_iter := false; k_exact := true; k_lax := true |}.
 Definition doc_nested_first : tree :=
   Ex.response Ex.IDP
     [Node ASSERTION [("ID", "E")] ""
@@ -1351,7 +1659,7 @@ Proof. repeat split; vm_compute; reflexivity. Qed.
 (* the Reference URI must equal "#"+ID exactly: with a case-insensitive comparison the genuine signature
    (URI #A) moved onto an attacker assertion whose ID is "a" passes, and xmlsec1 resolves #A to the genuine A *)
 Definition no_exact : knobs :=
-  {| k_uri := true; k_dup := true; k_nodeid := true; k_onesig := true; k_issuer := true; k_iter := true; k_exact := false |}.
+  {| k_uri := true; k_uniq := true; k_nodeid := true; k_onesig := true; k_issuer := true; k_iter := true; k_exact := false; k_lax := true |}.
 Definition doc_case_id : tree :=
   Ex.response Ex.IDP [Ex.assertion "a" Ex.IDP [Ex.sigA] "admin" "admin@evil.example" [Ex.el ADVICE [Ex.genuineA]]].
 Lemma necessity_exact_id : permits_wrapping no_exact doc_case_id.
@@ -1392,47 +1700,169 @@ Qed.
 Lemma f2_now_rejected : Ex.run as_coded Ex.cfgA Ex.doc_f2 = None.
 Proof. vm_compute. reflexivity. Qed.
 
+(* ================================================================== engines: guard, finding C02-F3 *)
+Lemma sub_subtrees : forall q t e, sub t q = Some e -> In e (subtrees t).
+Proof.
+  induction q as [|n r IH]; intros t e H; simpl in H.
+  - inversion H; subst. apply subtrees_self.
+  - destruct (nth_error (kids t) n) as [k|] eqn:Hn; [|discriminate].
+    eapply subtrees_kid; [eapply nth_error_In; eauto | now apply IH].
+Qed.
+
+Definition no_bare_b (doc : tree) : bool :=
+  forallb (fun e => negb (String.eqb (tag e) "Assertion" || String.eqb (tag e) "Response")
+                    || match attr "ID" e with None => true | Some _ => false end) (subtrees doc).
+
+Lemma no_bare_b_ok doc : no_bare_b doc = true -> no_bare doc.
+Proof.
+  unfold no_bare_b, no_bare. rewrite forallb_forall. intros H q e Hs Ht.
+  specialize (H e (sub_subtrees _ _ _ Hs)).
+  assert (Hb : String.eqb (tag e) "Assertion" || String.eqb (tag e) "Response" = true)
+    by (destruct Ht as [-> | ->]; reflexivity).
+  rewrite Hb in H. cbn [negb orb] in H. destruct (attr "ID" e); [discriminate | reflexivity].
+Qed.
+
+Lemma engine_guard_strict E doc ddoc : e_ids E = IdStrict -> engine_guard E doc ddoc.
+Proof. intros H Hl. unfold lenient in Hl. rewrite H in Hl. discriminate. Qed.
+
+(* the guard is satisfiable: the genuine message has no such element; and it is accepted under every engine *)
+Example genuine_all_engines :
+  (forall E, engine_guard E Ex.doc_genuine None)
+  /\ forallb (fun E => match Ex.names (Ex.run_e E as_coded Ex.cfgA Ex.doc_genuine) with
+                       | Some (Some ("alice", None)) => true | _ => false end) Ex.all_engines = true.
+Proof.
+  split; [|vm_compute; reflexivity].
+  intros E _. split; [apply no_bare_b_ok; vm_compute; reflexivity | intros dd H; discriminate].
+Qed.
+
+(* C02-F3 (fixed by 32211c52; lenient engines only): the code before the fix (knobs_v1) accepted the forged assertion, only the genuine
+   assertion inside the un-namespaced holder was digested; xmlsec1 itself rejects the document (duplicate ID) *)
+Lemma f3_lenient_v1_refuted :
+  (exists rep ds, Ex.run_e Ex.eng_first knobs_v1 Ex.cfgA Ex.doc_bare_first = Some (rep, ds)
+                  /\ r_name_id rep = Some ("admin", None)
+                  /\ oracle_sane Ex.all_ok Ex.doc_bare_first None /\ sig_required Ex.cfgA
+                  /\ ~ spec_but_issuer Ex.cfgA (cov_of Ex.doc_bare_first None ds) rep)
+  /\ (exists rep ds, Ex.run_e Ex.eng_last knobs_v1 Ex.cfgA Ex.doc_bare_last = Some (rep, ds)
+                  /\ r_name_id rep = Some ("admin", None)
+                  /\ ~ spec_but_issuer Ex.cfgA (cov_of Ex.doc_bare_last None ds) rep)
+  /\ ~ engine_guard Ex.eng_first Ex.doc_bare_first None /\ ~ engine_guard Ex.eng_last Ex.doc_bare_last None
+  /\ Ex.run knobs_v1 Ex.cfgA Ex.doc_bare_first = None /\ Ex.run knobs_v1 Ex.cfgA Ex.doc_bare_last = None.
+Proof.
+  split; [|split; [|split; [|split; [|split]]]]; try (vm_compute; reflexivity).
+  - destruct (Ex.run_e Ex.eng_first knobs_v1 Ex.cfgA Ex.doc_bare_first) as [[rep ds]|] eqn:E; [|vm_compute in E; discriminate].
+    exists rep, ds. split; [reflexivity|].
+    assert (Hn : Ex.names (Ex.run_e Ex.eng_first knobs_v1 Ex.cfgA Ex.doc_bare_first) = Some (Some ("admin", None))) by (vm_compute; reflexivity).
+    assert (Hb : Ex.bad Ex.cfgA Ex.doc_bare_first (Ex.run_e Ex.eng_first knobs_v1 Ex.cfgA Ex.doc_bare_first) = true) by (vm_compute; reflexivity).
+    rewrite E in Hn, Hb. cbn [Ex.names Ex.bad] in Hn, Hb. inversion Hn as [Hn'].
+    split; [reflexivity|]. split; [|split; [right; left; reflexivity|]].
+    + split; [intros _; vm_compute; discriminate | split; [vm_compute; repeat split; discriminate | intros dd H; discriminate]].
+    + apply not_spec_of_b. now apply negb_true_iff in Hb.
+  - destruct (Ex.run_e Ex.eng_last knobs_v1 Ex.cfgA Ex.doc_bare_last) as [[rep ds]|] eqn:E; [|vm_compute in E; discriminate].
+    exists rep, ds. split; [reflexivity|].
+    assert (Hn : Ex.names (Ex.run_e Ex.eng_last knobs_v1 Ex.cfgA Ex.doc_bare_last) = Some (Some ("admin", None))) by (vm_compute; reflexivity).
+    assert (Hb : Ex.bad Ex.cfgA Ex.doc_bare_last (Ex.run_e Ex.eng_last knobs_v1 Ex.cfgA Ex.doc_bare_last) = true) by (vm_compute; reflexivity).
+    rewrite E in Hn, Hb. cbn [Ex.names Ex.bad] in Hn, Hb. inversion Hn as [Hn'].
+    split; [reflexivity|]. apply not_spec_of_b. now apply negb_true_iff in Hb.
+  - intro G. destruct (G eq_refl) as [G1 _].
+    specialize (G1 [1; 0] Ex.bare_holder eq_refl (or_introl eq_refl)). vm_compute in G1. discriminate.
+  - intro G. destruct (G eq_refl) as [G1 _].
+    specialize (G1 [2; 0] Ex.bare_holder eq_refl (or_introl eq_refl)). vm_compute in G1. discriminate.
+Qed.
+
 (* ================================================================== the statements of Property.v *)
 Lemma knobs_as_coded : sound_knobs as_coded.
 Proof. repeat split. Qed.
 Lemma knobs_v0_sound : sound_knobs knobs_v0.
 Proof. repeat split. Qed.
+Lemma knobs_no_uniq : sound_knobs no_uniq.
+Proof. repeat split. Qed.
 
+Lemma knobs_v1_sound : sound_knobs knobs_v1.
+Proof. repeat split. Qed.
+
+Lemma defence_as_coded E doc ddoc : defence E as_coded doc ddoc.
+Proof. left. split; [reflexivity | now left]. Qed.
+Lemma defence_v1 E doc ddoc : defence E knobs_v1 doc ddoc.
+Proof. left. split; [reflexivity | now left]. Qed.
+
+(* the code as it is (after e81db11e, 64feb908, 32211c52): every engine, no guard *)
 Lemma covered_as_coded :
-  forall dig_ok sig_ok c o doc ddoc rep ds,
+  forall E dig_ok sig_ok c o doc ddoc rep ds,
     sig_required c -> oracle_sane o doc ddoc -> dec_sound doc ddoc ->
-    accept dig_ok sig_ok as_coded c o doc ddoc = Some (rep, ds) ->
+    accept dig_ok sig_ok E as_coded c o doc ddoc = Some (rep, ds) ->
     spec c (cov_of doc ddoc ds) rep
     /\ (forall e k, In (e, k) (cov_of doc ddoc ds) -> crypto_ok dig_ok sig_ok e k).
 Proof.
-  intros dig_ok sig_ok c o doc ddoc rep ds Hr Ho Hd H.
-  exact (accept_covered dig_ok sig_ok as_coded c o doc ddoc rep ds knobs_as_coded Hr (or_introl eq_refl) (or_introl eq_refl) Ho Hd H).
+  intros E dig_ok sig_ok c o doc ddoc rep ds Hr Ho Hd H.
+  exact (accept_covered dig_ok sig_ok E as_coded c o doc ddoc rep ds knobs_as_coded Hr (defence_as_coded E doc ddoc)
+           (or_introl eq_refl) (or_introl eq_refl) Ho Hd H).
 Qed.
 
 Lemma xsw_free_as_coded :
-  forall dig_ok sig_ok (issued : nat -> tree -> tree -> Prop),
+  forall E dig_ok sig_ok (issued : nat -> tree -> tree -> Prop),
     (forall k sv si, sig_ok k sv si = true -> exists e, issued k si e) ->
     (forall k si e alg dv, issued k si e -> si_digest si = Some (alg, dv) -> dig_ok alg dv e = true) ->
     (forall alg dv t t', dig_ok alg dv t = true -> dig_ok alg dv t' = true -> t = t') ->
     forall c o doc ddoc rep ds,
       sig_required c -> oracle_sane o doc ddoc -> dec_sound doc ddoc ->
-      accept dig_ok sig_ok as_coded c o doc ddoc = Some (rep, ds) ->
+      accept dig_ok sig_ok E as_coded c o doc ddoc = Some (rep, ds) ->
       spec c (cov_of doc ddoc ds) rep
       /\ (forall e k, In (e, k) (cov_of doc ddoc ds) -> exists si, issued k si e).
 Proof.
-  intros dig_ok sig_ok issued H1 H2 H3 c o doc ddoc rep ds Hr Ho Hd H.
-  exact (wrapping_free dig_ok sig_ok issued H1 H2 H3 as_coded c o doc ddoc rep ds knobs_as_coded Hr
-           (or_introl eq_refl) (or_introl eq_refl) Ho Hd H).
+  intros E dig_ok sig_ok issued H1 H2 H3 c o doc ddoc rep ds Hr Ho Hd H.
+  exact (wrapping_free dig_ok sig_ok issued H1 H2 H3 E as_coded c o doc ddoc rep ds knobs_as_coded Hr
+           (defence_as_coded E doc ddoc) (or_introl eq_refl) (or_introl eq_refl) Ho Hd H).
 Qed.
 
-(* the code before the repairs satisfied the property only under the two guards *)
-Lemma covered_v0 :
-  forall dig_ok sig_ok c o doc ddoc rep ds,
-    sig_required c -> sig_guard doc ddoc -> issuer_guard doc ddoc -> oracle_sane o doc ddoc -> dec_sound doc ddoc ->
-    accept dig_ok sig_ok knobs_v0 c o doc ddoc = Some (rep, ds) ->
+(* the code before 32211c52 (knobs_v1): every engine, but for the lenient ones only under engine_guard *)
+Lemma covered_v1 :
+  forall E dig_ok sig_ok c o doc ddoc rep ds,
+    engine_guard E doc ddoc ->
+    sig_required c -> oracle_sane o doc ddoc -> dec_sound doc ddoc ->
+    accept dig_ok sig_ok E knobs_v1 c o doc ddoc = Some (rep, ds) ->
     spec c (cov_of doc ddoc ds) rep
     /\ (forall e k, In (e, k) (cov_of doc ddoc ds) -> crypto_ok dig_ok sig_ok e k).
 Proof.
-  intros dig_ok sig_ok c o doc ddoc rep ds Hr Hg Hi Ho Hd H.
-  exact (accept_covered dig_ok sig_ok knobs_v0 c o doc ddoc rep ds knobs_v0_sound Hr (or_intror Hg) (or_intror Hi) Ho Hd H).
+  intros E dig_ok sig_ok c o doc ddoc rep ds He Hr Ho Hd H.
+  exact (accept_covered dig_ok sig_ok E knobs_v1 c o doc ddoc rep ds knobs_v1_sound Hr (defence_v1 E doc ddoc)
+           (or_introl eq_refl) (or_intror He) Ho Hd H).
+Qed.
+
+(* the witnesses of C02-F3 lie outside engine_guard's class ... and the code as it is rejects them under every engine,
+   while the genuine message is still accepted under all six *)
+Lemma f3_now_rejected :
+  forallb (fun E => match Ex.run_e E as_coded Ex.cfgA Ex.doc_bare_first, Ex.run_e E as_coded Ex.cfgA Ex.doc_bare_last with
+                    | None, None => true | _, _ => false end) Ex.all_engines = true
+  /\ forallb (fun E => match Ex.names (Ex.run_e E as_coded Ex.cfgA Ex.doc_genuine) with
+                       | Some (Some ("alice", None)) => true | _ => false end) Ex.all_engines = true.
+Proof. split; vm_compute; reflexivity. Qed.
+
+(* under an engine that is strict about duplicate IDs (xmlsec1) the uniqueness test of the code is redundant:
+   the property holds without it *)
+Lemma covered_strict_without_uniq :
+  forall E dig_ok sig_ok c o doc ddoc rep ds,
+    e_ids E = IdStrict ->
+    sig_required c -> oracle_sane o doc ddoc -> dec_sound doc ddoc ->
+    accept dig_ok sig_ok E no_uniq c o doc ddoc = Some (rep, ds) ->
+    spec c (cov_of doc ddoc ds) rep
+    /\ (forall e k, In (e, k) (cov_of doc ddoc ds) -> crypto_ok dig_ok sig_ok e k).
+Proof.
+  intros E dig_ok sig_ok c o doc ddoc rep ds Hs Hr Ho Hd H.
+  refine (accept_covered dig_ok sig_ok E no_uniq c o doc ddoc rep ds knobs_no_uniq Hr _ (or_introl eq_refl)
+            (or_introl eq_refl) Ho Hd H).
+  left. split; [reflexivity | now right].
+Qed.
+
+(* the code before the repairs satisfied the property only under the two guards (and only with a strict engine) *)
+Lemma covered_v0 :
+  forall E dig_ok sig_ok c o doc ddoc rep ds,
+    e_ids E = IdStrict ->
+    sig_required c -> sig_guard doc ddoc -> issuer_guard doc ddoc -> oracle_sane o doc ddoc -> dec_sound doc ddoc ->
+    accept dig_ok sig_ok E knobs_v0 c o doc ddoc = Some (rep, ds) ->
+    spec c (cov_of doc ddoc ds) rep
+    /\ (forall e k, In (e, k) (cov_of doc ddoc ds) -> crypto_ok dig_ok sig_ok e k).
+Proof.
+  intros E dig_ok sig_ok c o doc ddoc rep ds Hs Hr Hg Hi Ho Hd H.
+  exact (accept_covered dig_ok sig_ok E knobs_v0 c o doc ddoc rep ds knobs_v0_sound Hr (or_intror (conj Hg Hs)) (or_intror Hi)
+           (or_intror (engine_guard_strict E doc ddoc Hs)) Ho Hd H).
 Qed.
